@@ -34,7 +34,14 @@ pub fn decode(src: &mut Source) -> Box<dyn Case> {
             // ITS language's tokens
             let l = *src.pick(&["none", "de", "fr", "es", "ru", "en"]);
             let mut w = String::new();
-            match src.below(4) {
+            match src.below(5) {
+                4 if src.chance(1, 3) => {
+                    // a long compound (the thread-local matcher scratch grows)
+                    let plain = plain_letters(if l == "ru" { "ru" } else { "en" });
+                    for _ in 0..src.range(21, 40) {
+                        w.push(plain[src.below(6)]);
+                    }
+                }
                 0 => {
                     for _ in 0..src.range(2, 6) {
                         gen_letter(src, l, &mut w, false);
@@ -69,7 +76,11 @@ pub fn decode(src: &mut Source) -> Box<dyn Case> {
             Some(lang) => match src.weighted(&[8, 8, 2, 2, 1]) {
                 0 => {
                     let nw = src.range(1, 3);
-                    let t = if src.chance(5, 6) { (0..nw).map(|_| src.pick(&shared_vocab).clone()).collect::<Vec<_>>().join(" ") } else { gen_title(src, lang, &shared_vocab, Flavor::Adversarial) };
+                    let prev_add: Option<String> = ops.iter().rev().find_map(|o| if let Op::Add(_, _, t, _) = o { Some(t.clone()) } else { None });
+                    let t = if prev_add.is_some() && src.chance(1, 5) {
+                        // the very same title that was just added (often to another store)
+                        prev_add.unwrap()
+                    } else if src.chance(5, 6) { (0..nw).map(|_| src.pick(&shared_vocab).clone()).collect::<Vec<_>>().join(" ") } else { gen_title(src, lang, &shared_vocab, Flavor::Adversarial) };
                     titles[s].push(t.clone());
                     ops.push(Op::Add(IDS[s], next_rec, t, src.below(4)));
                     next_rec += 1;
